@@ -627,6 +627,22 @@ bool Parser::parse_patch_header(Patch& patch, PatchHeaderInfo& header_info, int 
                 LineNumber old_end_line = -1;
                 if (ends_with(line, " ****") && parse_context_range(old_start_line, old_end_line, line.substr(4, line.size() - 9)))
                     hunk.old_file_range.start_line = old_start_line;
+
+                // Likewise look ahead past the lines of the old file for the range of the new file, to spot a
+                // file which is being removed. We return to the start of the patch below whatever is read here.
+                std::string ahead;
+                while (get_line(ahead)) {
+                    if (starts_with(ahead, "--- ") && ends_with(ahead, " ----")) {
+                        LineNumber new_start_line = -1;
+                        LineNumber new_end_line = -1;
+                        if (parse_context_range(new_start_line, new_end_line, ahead.substr(4, ahead.size() - 9)))
+                            hunk.new_file_range.start_line = new_start_line;
+                        break;
+                    }
+
+                    if (!starts_with(ahead, "- ") && !starts_with(ahead, "  ") && !starts_with(ahead, "! ") && !starts_with(ahead, "\\"))
+                        break;
+                }
                 break;
             }
 
